@@ -1505,7 +1505,9 @@ class Interp:
         if a.kwarg:
             vars[a.kwarg.arg] = st.alloc(DictE(kwargs))
         elif kwargs:
-            return None, ExcVal(BuiltinClass("TypeError", TypeError), ("unexpected keyword %s" % list(kwargs),))
+            # CPython's message (code in the repo tests for this text): Class.func() got an unexpected keyword argument 'first one'
+            qn = (f.cls.name + "." if f.cls is not None else "") + f.name
+            return None, ExcVal(BuiltinClass("TypeError", TypeError), ("%s() got an unexpected keyword argument '%s'" % (qn, list(kwargs)[0]),))
         return vars, None
 
     def eval_default(self, f, expr, st):
